@@ -345,7 +345,20 @@ pub fn path_burst<O: PathOwner>(o: &mut O, ops: &[BOp<PathOp>], force_reopen: bo
 		}
 		match guarded(|| h.apply(&bop.op)) {
 			Caught::Ok(()) => {}
-			Caught::Injected => log.unwound.push(i),
+			Caught::Injected => {
+				// The caller's own iterator unwound through the handle. Nothing is demanded of
+				// that handle any more: the caller gives it up and obtains a fresh one.
+				log.unwound.push(i);
+				drop(h);
+				if let Caught::Panic(m) = guarded(|| {
+					let _ = o.open();
+				}) {
+					log.panic = Some((i, "open", m));
+					log.final_text = o.bytes().to_vec();
+					return log;
+				}
+				h = o.open();
+			}
 			Caught::Panic(m) => {
 				log.panic = Some((i, "call", m));
 				break;
